@@ -2,7 +2,7 @@
 SPECIFICATION Spec
 CONSTANTS
     Alphabet <- AlphaBook
-    TS = {0, 6}
+    TS = {0, 4}
     Nows = {64, 70}
     Prelude <- PreludeSess
     DefaultExp = 60
